@@ -135,9 +135,16 @@ class _FirstUse(ast.NodeVisitor):
 class _BodyRewriter(ast.NodeTransformer):
     """Rewrites inside a prange body or an interpreted callee."""
 
-    def __init__(self, in_prange_body):
+    def __init__(self, in_prange_body, reductions=(), region_index=None):
         self.loop_depth = 0
         self.in_prange_body = in_prange_body
+        self.reductions = set(reductions)
+        self.region_index = region_index
+
+    def visit_Name(self, node):
+        if isinstance(node.ctx, ast.Load) and node.id in self.reductions:
+            raise TransformError("reduction variable %s is read inside the prange body" % node.id)
+        return node
 
     def visit_For(self, node):
         self.loop_depth += 1
@@ -168,6 +175,16 @@ class _BodyRewriter(ast.NodeTransformer):
 
     def visit_AugAssign(self, node):
         self.generic_visit(node)
+        if isinstance(node.target, ast.Name) and node.target.id in self.reductions:
+            opname = _AUG.get(type(node.op))
+            if opname not in ("add", "sub", "mul"):
+                raise TransformError("unsupported reduction operator on %s" % node.target.id)
+            call = ast.Call(
+                func=ast.Attribute(value=ast.Name(id="__sim", ctx=ast.Load()), attr="reduce", ctx=ast.Load()),
+                args=[ast.Constant(self.region_index), ast.Constant(node.target.id), ast.Constant(opname), node.value],
+                keywords=[],
+            )
+            return ast.copy_location(ast.Expr(value=call), node)
         if isinstance(node.target, ast.Subscript) and isinstance(node.target.value, ast.Name):
             opname = _AUG.get(type(node.op))
             if opname is None:
@@ -191,8 +208,10 @@ class _BodyRewriter(ast.NodeTransformer):
             return node
         if isinstance(node.func, ast.Attribute) and isinstance(node.func.value, ast.Name) and node.func.value.id == "__sim":
             return node
-        has_name_arg = any(isinstance(a, ast.Name) for a in node.args)
-        if not has_name_arg or node.keywords:
+        has_name_arg = any(isinstance(a, ast.Name) for a in node.args) or any(
+            isinstance(k.value, ast.Name) for k in node.keywords
+        )
+        if not has_name_arg or any(k.arg is None for k in node.keywords) or any(isinstance(a, ast.Starred) for a in node.args):
             return node
         # only plain function objects are routed (method calls on arrays/jitclasses stay direct)
         if not isinstance(node.func, (ast.Name,)):
@@ -200,7 +219,7 @@ class _BodyRewriter(ast.NodeTransformer):
         new = ast.Call(
             func=ast.Attribute(value=ast.Name(id="__sim", ctx=ast.Load()), attr="call", ctx=ast.Load()),
             args=[node.func] + node.args,
-            keywords=[],
+            keywords=node.keywords,
         )
         return ast.copy_location(new, node)
 
@@ -274,8 +293,8 @@ class _KernelTransformer(ast.NodeTransformer):
             raise TransformError("prange loop target must be a simple name")
         if loop.orelse:
             raise TransformError("prange loop with else clause")
-        if len(loop.iter.args) != 1:
-            raise TransformError("prange with start/step is not supported")
+        if not (1 <= len(loop.iter.args) <= 3) or loop.iter.keywords:
+            raise TransformError("unsupported prange call")
         k = len(self.regions)
         body = loop.body
         var = loop.target.id
@@ -290,8 +309,14 @@ class _KernelTransformer(ast.NodeTransformer):
         for s in body:
             fu.visit(s)
         private = set(stored)
+        reductions_pre = set()
+        for s_ in body:
+            for sub in ast.walk(s_):
+                if isinstance(sub, ast.AugAssign) and isinstance(sub.target, ast.Name) and sub.target.id in fu.read_before_store:
+                    reductions_pre.add(sub.target.id)
+        reductions_pre.discard(var)
         # static refusal 1: private name read after the loop
-        leak = (private & loaded_after) - {var}
+        leak = ((private - reductions_pre) & loaded_after) - {var}
         # a name re-assigned after the loop before being read is fine, but we stay conservative only
         # for names that are *not* also assigned before the loop (those are simply shadowed: Numba
         # would reject or privatise them as well)
@@ -307,8 +332,17 @@ class _KernelTransformer(ast.NodeTransformer):
         carried = (fu.read_before_store & private) - reductions
         if carried:
             raise TransformError("loop-carried names in prange body: %s" % sorted(carried))
-        if reductions:
-            raise TransformError("scalar reductions in prange body are not supported: %s" % sorted(reductions))
+        # a reduction variable must be a local of the enclosing function that is only updated by `x op= v`
+        for name in sorted(reductions):
+            if name not in self.fn_locals:
+                raise TransformError("reduction over a non-local name %s" % name)
+            for st_ in body:
+                for sub in ast.walk(st_):
+                    if isinstance(sub, ast.Name) and sub.id == name and isinstance(sub.ctx, ast.Store):
+                        par = [a for a in ast.walk(st_) if isinstance(a, ast.AugAssign) and a.target is sub]
+                        if not par:
+                            raise TransformError("reduction variable %s is also assigned plainly in the body" % name)
+        private -= reductions
         # shared arrays written through a subscript
         sub_stored = set()
         call_args = set()
@@ -328,7 +362,7 @@ class _KernelTransformer(ast.NodeTransformer):
         call_args &= self.fn_locals
         call_args -= sub_stored
         self.regions.append(RegionInfo(k, loop.lineno, var, sub_stored, call_args, private - {var}, reductions))
-        rw = _BodyRewriter(in_prange_body=True)
+        rw = _BodyRewriter(in_prange_body=True, reductions=reductions, region_index=k)
         new_body = [rw.visit(s) for s in body]
         fname = "__body_%d" % k
         fdef = ast.FunctionDef(
@@ -378,7 +412,7 @@ class _KernelTransformer(ast.NodeTransformer):
                 func=ast.Attribute(value=ast.Name(id="__sim", ctx=ast.Load()), attr="parallel_for", ctx=ast.Load()),
                 args=[
                     ast.Constant(k),
-                    loop.iter.args[0],
+                    ast.Tuple(elts=list(loop.iter.args), ctx=ast.Load()),
                     ast.Name(id=fname, ctx=ast.Load()),
                     getters,
                     ast.Name(id="__rebind_%d" % k, ctx=ast.Load()),
@@ -387,7 +421,20 @@ class _KernelTransformer(ast.NodeTransformer):
                 keywords=[],
             )
         )
-        return [fdef, setter, call]
+        out_nodes = [fdef, setter, call]
+        # after the region: fold the per-worker partial results into the reduction variables
+        for name in sorted(reductions):
+            out_nodes.append(
+                ast.Assign(
+                    targets=[ast.Name(id=name, ctx=ast.Store())],
+                    value=ast.Call(
+                        func=ast.Attribute(value=ast.Name(id="__sim", ctx=ast.Load()), attr="reduce_result", ctx=ast.Load()),
+                        args=[ast.Constant(k), ast.Constant(name), ast.Name(id=name, ctx=ast.Load())],
+                        keywords=[],
+                    ),
+                )
+            )
+        return out_nodes
 
 
 THREAD_QUERIES = ("get_num_threads", "get_thread_id", "NUMBA_NUM_THREADS", "NUMBA_DEFAULT_NUM_THREADS")
